@@ -21,15 +21,16 @@ VARIABLES
   live,                                   \* repository: set of live paths
   n,                                      \* commits made so far
   lines, pos,                             \* lines printed for the current commit, next line to parse
-  cur, fmap, fchanges, commits,           \* ParseLog registers (commits = flushed so far, not yet compared)
+  cur, fmap, forder, fchanges, commits,   \* ParseLog registers (forder = currentFileChangeOrder; commits = flushed, not yet compared)
+  infos,                                  \* BuildCommitMessageMap: file name -> [revs, authors, first] (the summaries' fold, C15)
   expected,                               \* Reference: the entry the current block must produce (or None)
   hist                                    \* witness history (hidden by VIEW)
 
-vars == <<live, n, lines, pos, cur, fmap, fchanges, commits, expected, hist>>
-View == <<live, n, lines, pos, cur, fmap, fchanges, commits, expected>>
+vars == <<live, n, lines, pos, cur, fmap, forder, fchanges, commits, infos, expected, hist>>
+View == <<live, n, lines, pos, cur, fmap, forder, fchanges, commits, infos, expected>>
 
-Init == /\ live = {} /\ n = 0 /\ lines = <<>> /\ pos = 1 /\ cur = None /\ fmap = <<>> /\ fchanges = <<>>
-        /\ commits = <<>> /\ expected = None /\ hist = <<>>
+Init == /\ live = {} /\ n = 0 /\ lines = <<>> /\ pos = 1 /\ cur = None /\ fmap = <<>> /\ forder = <<>> /\ fchanges = <<>>
+        /\ commits = <<>> /\ infos = <<>> /\ expected = None /\ hist = <<>>
 
 RevOf(i) == <<"aaaaaa1", "bbbbbb2", "cccccc3", "dddddd4">>[i]
 
@@ -77,7 +78,7 @@ Commit ==
                                     merge |-> FALSE, ops |-> ops])
            /\ live' = Apply(live, ops)
   /\ pos' = 1 /\ n' = n + 1
-  /\ UNCHANGED <<cur, fmap, fchanges, commits>>
+  /\ UNCHANGED <<cur, fmap, forder, fchanges, commits, infos>>
 
 Line == lines[pos]
 
@@ -86,15 +87,16 @@ ParseHeader ==
   /\ pos <= Len(lines) /\ Line.k = "header"
   /\ cur' = [rev |-> Line.rev, author |-> Line.author, date |-> Line.date, msg |-> Line.subject]
   /\ pos' = pos + 1
-  /\ UNCHANGED <<live, n, lines, fmap, fchanges, commits, expected, hist>>
+  /\ UNCHANGED <<live, n, lines, fmap, forder, fchanges, commits, infos, expected, hist>>
 
 \* ParseLog, numstat line: currentFileChangeMap[file] = change
 ParseNumstat ==
   /\ pos <= Len(lines) /\ Line.k = "numstat"
   /\ fmap' = [f \in DOMAIN fmap \cup {Line.file} |->
                 IF f = Line.file THEN [file |-> f, added |-> Line.added, deleted |-> Line.deleted, mode |-> ""] ELSE fmap[f]]
+  /\ forder' = IF Line.file \in DOMAIN fmap THEN forder ELSE Append(forder, Line.file)
   /\ pos' = pos + 1
-  /\ UNCHANGED <<live, n, lines, cur, fchanges, commits, expected, hist>>
+  /\ UNCHANGED <<live, n, lines, cur, fchanges, commits, infos, expected, hist>>
 
 \* ParseLog, summary line -> buildChangeMode: sets Mode on the pending change of that path;
 \* a `delete` line for an unknown path appends a change; rename/mode-change lines name no pending path
@@ -106,25 +108,46 @@ ParseSummary ==
           THEN /\ fchanges' = Append(fchanges, [file |-> Line.file, added |-> 0, deleted |-> 0, mode |-> "delete"]) /\ UNCHANGED fmap
           ELSE UNCHANGED <<fmap, fchanges>>
   /\ pos' = pos + 1
-  /\ UNCHANGED <<live, n, lines, cur, commits, expected, hist>>
+  /\ UNCHANGED <<live, n, lines, cur, forder, commits, infos, expected, hist>>
 
-\* ParseLog, blank line: flush the pending commit (map order is arbitrary: the changes are a set)
+\* ParseLog, blank line: flush the pending commit with its changes in the order git printed them (fix 49660c4)
 ParseBlank ==
   /\ pos <= Len(lines) /\ Line.k = "blank"
   /\ IF cur.rev # ""
-     THEN /\ \E order \in {s \in [1..Cardinality(DOMAIN fmap) -> DOMAIN fmap] : \A i, j \in DOMAIN s : i # j => s[i] # s[j]} :
-               commits' = Append(commits, [rev |-> cur.rev, author |-> cur.author, date |-> cur.date, msg |-> cur.msg,
-                                           changes |-> fchanges \o [i \in DOMAIN order |-> fmap[order[i]]]])
-          /\ cur' = None /\ fmap' = <<>> /\ fchanges' = <<>>
-     ELSE UNCHANGED <<cur, fmap, fchanges, commits>>
+     THEN /\ commits' = Append(commits, [rev |-> cur.rev, author |-> cur.author, date |-> cur.date, msg |-> cur.msg,
+                                          changes |-> fchanges \o [i \in DOMAIN forder |-> fmap[forder[i]]]])
+          /\ cur' = None /\ fmap' = <<>> /\ forder' = <<>> /\ fchanges' = <<>>
+     ELSE UNCHANGED <<cur, fmap, forder, fchanges, commits>>
   /\ pos' = pos + 1
-  /\ UNCHANGED <<live, n, lines, expected, hist>>
+  /\ UNCHANGED <<live, n, lines, infos, expected, hist>>
 
-\* after a block has been parsed the flushed entry is compared with the Reference and dropped from the state
+\* BuildCommitMessageMap for one change of a commit: renames move the entry (switchMapFile), then the file is
+\* created or touched, and a change in delete mode drops it. The rename notation is decoded as the code's
+\* expressions do (complexMoveReg `dir/{a => b}/x`, basicMvReg `a => b`); the Machine knows the decoding of the
+\* two notations it prints.
+Decode(file) == CASE file = "d/{b.txt => c.txt}" -> [old |-> "d/b.txt", new |-> "d/c.txt"]
+                  [] file = "d/b.txt => r.txt"   -> [old |-> "d/b.txt", new |-> "r.txt"]
+                  [] OTHER                       -> [old |-> file, new |-> file]
+FoldChange(inf, c, ch) ==
+  LET d == Decode(ch.file)
+      moved == IF d.old # d.new /\ d.old \in DOMAIN inf
+               THEN [f \in (DOMAIN inf \ {d.old}) \cup {d.new} |-> IF f = d.new THEN inf[d.old] ELSE inf[f]]
+               ELSE inf
+      name == d.new
+      touched == IF name \in DOMAIN moved
+                 THEN [moved EXCEPT ![name] = [revs |-> @.revs \cup {c.rev}, authors |-> @.authors \cup {c.author}, first |-> @.first]]
+                 ELSE [f \in DOMAIN moved \cup {name} |-> IF f = name THEN [revs |-> {c.rev}, authors |-> {c.author}, first |-> c.date] ELSE moved[f]]
+  IN  IF ch.mode = "delete" THEN [f \in DOMAIN touched \ {name} |-> touched[f]] ELSE touched
+RECURSIVE FoldCommit(_, _, _)
+FoldCommit(inf, c, k) == IF k > Len(c.changes) THEN inf ELSE FoldCommit(FoldChange(inf, c, c.changes[k]), c, k + 1)
+
+\* after a block has been parsed the flushed entry is compared with the Reference, folded into the summaries'
+\* table, and dropped from the state
 Compare ==
   /\ pos > Len(lines) /\ lines # <<>>
+  /\ infos' = IF commits = <<>> THEN infos ELSE FoldCommit(infos, commits[1], 1)
   /\ lines' = <<>> /\ pos' = 1 /\ commits' = <<>> /\ expected' = None
-  /\ UNCHANGED <<live, n, cur, fmap, fchanges, hist>>
+  /\ UNCHANGED <<live, n, cur, fmap, forder, fchanges, hist>>
 
 Finished == n = MaxCommits /\ lines = <<>>
 Done == Finished /\ UNCHANGED vars
@@ -140,7 +163,20 @@ C14_BlockExact ==
      ELSE Len(commits) = 1 /\ DiffCommit(expected, commits[1], commits, 1) = {}
 
 \* nothing parsed for one commit is left in the registers for the next
-C14_NoChangeMigrates == (pos > Len(lines) /\ lines # <<>> /\ expected # None) => (fmap = <<>> /\ fchanges = <<>> /\ cur = None)
+C14_NoChangeMigrates == (pos > Len(lines) /\ lines # <<>> /\ expected # None) => (fmap = <<>> /\ forder = <<>> /\ fchanges = <<>> /\ cur = None)
+
+\* C15 (team summary / code age part): when the log has been consumed the summaries' table holds exactly the files
+\* that still exist, each with the commits and authors that touched it through its renames and its first-commit
+\* date - compared with GitRef!Final over the history (paths deleted and re-created are free there)
+C15_TableMatchesHistory ==
+  Finished =>
+    LET fin == Final([history |-> hist])
+        judged == {p \in DOMAIN fin.live : p \notin fin.gone}
+    IN  /\ \A p \in judged : /\ p \in DOMAIN infos
+                             /\ Cardinality(infos[p].revs) = Cardinality(fin.live[p].revs)
+                             /\ infos[p].authors = fin.live[p].authors
+                             /\ infos[p].first = fin.live[p].first
+        /\ \A p \in DOMAIN infos : p \in DOMAIN fin.live \/ p \in fin.gone
 
 Emit == (pos > Len(lines) /\ lines # <<>>) => PrintT(<<"CASE", ToJson([history |-> hist])>>)
 =============================================================================
